@@ -41,7 +41,9 @@ def canon(v, places=None) -> dict:
         return canon_num(v)
     if isinstance(v, float):
         if places is not None and v == v and abs(v) != float("inf"):
-            return canon_num(float(f"{v:.{places}f}"))
+            # `places` significant digits: removes the last-ulp error of  register * 10**-2  without touching any
+            # digit the register can carry (a scaled 32-bit register has at most 13 significant digits)
+            return canon_num(float(f"{v:.{places}g}"))
         return canon_num(v)
     if isinstance(v, datetime.datetime):
         off = v.utcoffset()
